@@ -4,6 +4,7 @@ Triples of the public dictionary API of `map.rs` / `index.rs`.
 import Micromap.Proofs.MapOps
 
 namespace Micromap
+open Dict (swapRemove)
 variable {K V Q : Type} (E : Env K V Q)
 
 /-- `Map::insert_key_value`. -/
